@@ -139,8 +139,11 @@ func (x *vpoolSub) do(_, _ int, s step) *verdict {
 		}
 		_, dup := x.held[d.ID]
 		dup = dup || x.heldB[d.ID] != nil
-		if dup && !inAllow(d, s.Allow) {
-			return bad(key+"/double-handout", "the pool handed out backing array %d, which the client got earlier and still uses", d.ID)
+		if d.ID != 0 && !fresh && !inAllow(d, s.Allow) {
+			if dup {
+				return bad(key+"/handout-not-allowed", "the pool handed out backing array %d, which the client got earlier and still uses", d.ID)
+			}
+			return bad(key+"/handout-not-allowed", "the pool handed out backing array %d, which cannot have re-entered the pool (spec allows %+v)", d.ID, s.Allow)
 		}
 		if d.ID == 0 && !inAllow(d, s.Allow) {
 			return bad(key+"/below-min-capacity", "Get returned a nil slice (capacity 0); the documented minimum capacity is %d", vMin)
